@@ -56,13 +56,13 @@ func setKeyField(msg any, field string, key any) {
 
 func c12(e *Env) {
 	r := e.R
-	r.Rule("all 18 discriminator tables. Registered keys (226): decode of a reference-built image, encode-fill with a nil body/extension where the encoder fills (BjseBinary and the 13 extended messages), public factory; bodies: zero and 3..20 canonical values. Unregistered keys: factory probed on the whole u16 space, on every u32 key < 2^20 (thorough 2^24), every key within Hamming distance <= 2 or one decimal-digit edit of a registered key, byte-swapped registered keys and 10^5 (thorough 10^7) random others; string tables on every string of length <= 3 over {0-9,space,NUL,'A',0xFF} plus every single-byte edit of a registered key over all 256 byte values (thorough: ALL byte strings of length <= 3, 16.8 M per table); decode and encode-fill probed on a sample of those keys. distinct_nontrivial = distinct (table, key) pairs probed")
+	r.Rule("all 18 discriminator tables. Registered keys (226): decode of a reference-built image (into a fresh receiver and into a receiver that just decoded another member of the same table, followed by an unregistered key into that same receiver), encode-fill with a nil body/extension where the encoder fills (BjseBinary and the 13 extended messages), public factory; bodies: zero and 3..20 canonical values. Unregistered keys: factory probed on the whole u16 space, on every u32 key < 2^20 (thorough 2^24), every key within Hamming distance <= 2 or one decimal-digit edit of a registered key, byte-swapped registered keys and 10^5 (thorough 10^7) random others; string tables on every string of length <= 3 over {0-9,space,NUL,'A',0xFF} plus every single-byte edit of a registered key over all 256 byte values (thorough: ALL byte strings of length <= 3, 16.8 M per table); decode and encode-fill probed on a sample of those keys. distinct_nontrivial = distinct (table, key) pairs probed")
 	r.Explain("Oracle: the pinned key→type tables (frozen at the baseline commit). Registered key ⇒ decoder builds exactly the pinned type (reflect type identity) and the value round-trips; encoder fills exactly that type and its bytes equal the reference rendering with a zero body; factory returns that type. Unregistered key ⇒ factory returns (nil, error); Decode returns an error without panicking and leaves the body nil/unchanged; encode-fill returns an error; frames that do not fill (SSE, SZSE, risk, sample root) encode a nil body as an empty body and do not invent one. The set of keys a factory answers is thus compared with the pinned set in both directions.")
 	r.Assume("u32 key spaces are swept exhaustively only below 2^20/2^24 (every registered number is < 2^20); the rest is sampled")
 	tcs := e.tableCtxs()
 	var probes int64
 	acc := newFeatAcc()
-	perKey := e.N(3, 20)
+	perKey := e.N(6, 60)
 	// ---------------- registered keys
 	e.Par(len(tcs), func(i int) {
 		tc := tcs[i]
@@ -115,6 +115,56 @@ func c12(e *Env) {
 					break
 				}
 				lf["registered:decode"]++
+			}
+			// the same decisions on a receiver that was used before (a read loop reusing its objects):
+			// decode key A, then key B into the same object, then an unregistered key
+			if len(tb.Entries) > 1 {
+				var en2 schema.Entry
+				for k := range tb.Entries {
+					if tb.Entries[k].Key == en.Key {
+						en2 = tb.Entries[(k+1)%len(tb.Entries)]
+					}
+				}
+				bt2 := e.S.Lookup(owner.Pkg, en2.Type)
+				v1 := e.Gen(&gen.Opts{ForceKey: map[string]any{tb.QName: en.Key}}, tb.QName, fmt.Sprint(en.Key), "reuse1").Value(owner)
+				v2 := e.Gen(&gen.Opts{ForceKey: map[string]any{tb.QName: en2.Key}}, tb.QName, fmt.Sprint(en.Key), "reuse2").Value(owner)
+				img1, e1 := e.C.Encode(owner, v1)
+				img2, e2 := e.C.Encode(owner, v2)
+				if e1 == nil && e2 == nil {
+					d := e.C.New[owner.QName]()
+					LibDecode(d, bytes.NewBuffer(append([]byte(nil), img1...)))
+					buf := bytes.NewBuffer(append([]byte(nil), img2...))
+					derr, p := LibDecode(d, buf)
+					r.Evals(1)
+					body := reflect.ValueOf(d).Elem().FieldByName(tc.uf.Name)
+					want2 := reflect.TypeOf(e.C.New[bt2.QName]())
+					rm, _, _, _ := e.C.Decode(owner, img2, false)
+					switch {
+					case p != nil || derr != nil:
+						r.Violate(fmt.Sprintf("C12/reused-receiver-rejects-registered-key/%s", tb.QName), "C12/reused-receiver/"+tb.QName, det(map[string]any{"second_key": en2.Key, "error": fmt.Sprint(derr), "panic": fmt.Sprint(p)}))
+					case body.IsNil() || body.Elem().Type() != want2:
+						r.Violate(fmt.Sprintf("C12/reused-receiver-keeps-stale-type/%s", tb.QName), "C12/reused-receiver/"+tb.QName, det(map[string]any{"second_key": en2.Key, "pinned_type_for_second_key": bt2.QName, "got": fmt.Sprint(body.Elem().Type())}))
+					case val.Equal(rm, d) != "" || buf.Len() != 0:
+						r.Violate(fmt.Sprintf("C12/reused-receiver-round-trip/%s", tb.QName), "C12/reused-receiver/"+tb.QName, det(map[string]any{"second_key": en2.Key, "first_difference": val.Equal(rm, d), "left": buf.Len()}))
+					default:
+						lf["registered:decode-into-reused-receiver"]++
+						// now an unregistered key into the same (populated) receiver
+						g := e.Gen(&gen.Opts{}, tb.QName, fmt.Sprint(en.Key), "reuse-unreg")
+						v3 := g.Value(owner)
+						setKeyField(v3, tc.uf.Key, g.UnregKeyFor(tb))
+						if img3, e3 := e.C.Encode(owner, v3); e3 == nil {
+							if _, _, _, derr3 := e.C.Decode(owner, img3, false); derr3 == ref.ErrUnknownKey {
+								uerr, up := LibDecode(d, bytes.NewBuffer(append([]byte(nil), img3...)))
+								r.Evals(1)
+								if up != nil || uerr == nil {
+									r.Violate(fmt.Sprintf("C12/reused-receiver-accepts-unregistered-key/%s", tb.QName), "C12/reused-receiver/"+tb.QName, det(map[string]any{"image": val.Hex(img3, 120), "panic": fmt.Sprint(up)}))
+								} else {
+									lf["unregistered:rejected-on-reused-receiver"]++
+								}
+							}
+						}
+					}
+				}
 			}
 			// encode with a nil body
 			m := (e.Gen(&gen.Opts{ForceKey: map[string]any{tb.QName: en.Key}}, tb.QName, fmt.Sprint(en.Key), "fill")).Value(owner)
